@@ -160,6 +160,7 @@ func (c *Ctx) ReplayParent(scope string, idx int64) bool {
 
 // Expired reports whether the internal deadline passed; the run then ends with exhaustive=false.
 func (c *Ctx) Expired() bool {
+	c.tick++ // every poll of the deadline is also a sign of progress for the watchdog
 	if c.Replay {
 		return false
 	}
